@@ -7,6 +7,8 @@ import FuraxModel.Reduce
 import FuraxModel.Stokes
 import FuraxModel.Toeplitz
 import FuraxModel.Axes
+import FuraxModel.Landscape
+import FuraxModel.Config
 namespace Furax
 open SExp
 
@@ -111,10 +113,58 @@ def handleAxes (cmd : String) (args : List SExp) : Option SExp :=
     | .error e => some (replyErr e)
   | _, _ => none
 
+/-- `(pixel2index (pixel_shape) (coords))`, `(index-dtype N)`, `(coverage N (indices))`, `(round q)` -/
+def handleLandscape (cmd : String) (args : List SExp) : Option SExp :=
+  match cmd, args with
+  | "pixel2index", [ps, cs] => do
+    match Landscape.pixel2index (← ps.nats?) (← cs.rats?) with
+    | some i => some (list [atom "ok", ofInt i])
+    | none => some (replyErr .typeError)
+  | "index-dtype", [n] => do some (list [atom "ok", atom (Landscape.indexDType (← n.nat?)).name])
+  | "coverage", [n, idx] => do
+    some (list [atom "ok", ofNats (Landscape.coverage (← n.nat?) (← idx.ints?))])
+  | "round", [q] => do some (list [atom "ok", ofInt (Landscape.roundHalfEven (← q.rat?))])
+  | _, _ => none
+
+def decOptNat : SExp → Option (Option Nat)
+  | atom "N" => some none
+  | e => e.nat?.map some
+
+def decEv : List SExp → Option Config.Ev
+  | [atom "enter", a, b, c, d] => do
+    some (.enter { solver := ← decOptNat a, throw := ← decOptNat b, options := ← decOptNat c,
+                   callback := ← decOptNat d })
+  | [atom "exit"] => some .exit
+  | [atom "exitExc"] => some .exitExc
+  | [atom "mk", i] => i.nat?.map .mkInverse
+  | [atom "apply", i] => i.nat?.map .applyInverse
+  | [atom "read"] => some .read
+  | _ => none
+
+def encObs : Config.Obs → SExp
+  | .none => atom "N"
+  | .cfg c => list [atom "cfg", ofNat c.solver, ofNat c.throw, ofNat c.options, ofNat c.callback]
+  | .unknownInverse => atom "unknown"
+  | .unbalancedExit => atom "unbalanced"
+
+/-- `(config-history (ctx ev…) (ctx ev…) …)`: an interleaved history of several contexts; replies with the
+observation of every event, in order (each context starts from the defaults) -/
+def handleConfig (cmd : String) (args : List SExp) : Option SExp :=
+  match cmd with
+  | "config-history" => do
+    let evs ← args.mapM fun (e : SExp) => match e with
+      | list (c :: rest) => do some ((← c.nat?), (← decEv rest))
+      | _ => none
+    let (_, obs) := evs.foldl (fun (acc : Config.World × List Config.Obs) (ce : Nat × Config.Ev) =>
+        let r := Config.step (acc.1 ce.1) ce.2
+        (Config.stepWorld acc.1 ce, acc.2 ++ [r.2])) ((fun _ => ({} : Config.State)), [])
+    some (list (atom "ok" :: obs.map encObs))
+  | _ => none
+
 def handle (line : String) : String :=
   match SExp.parse line with
   | some (list (atom cmd :: args)) =>
-    match ((handleLevelA cmd args).orElse (fun _ => handleStokes cmd args)).orElse (fun _ => handleToeplitz cmd args) |>.orElse (fun _ => handleAxes cmd args) with
+    match ((handleLevelA cmd args).orElse (fun _ => handleStokes cmd args)).orElse (fun _ => handleToeplitz cmd args) |>.orElse (fun _ => handleAxes cmd args) |>.orElse (fun _ => handleLandscape cmd args) |>.orElse (fun _ => handleConfig cmd args) with
     | some r => r.toStr
     | none => "(bad-request)"
   | _ => "(bad-request)"
